@@ -139,14 +139,16 @@ def build(q, wd, witness):
     defs = dflags(q.defs) + (["-DWITNESS"] if witness else [])
     objs = []
     hpath = os.path.join(wd, q.harness[4:]) if q.harness.startswith("@wd/") else os.path.join(VERIF, "harness", q.harness)
-    jobs = [(hpath, "e" if (q.cache_harness and not q.harness.startswith("@wd/")) else "h", defs)]
+    fdef = ["-Dfree=verif_free"] if q.instr else []     # see env/libc_model.c (cbmc crash on &free after goto-instrument)
+    jobs = [(hpath, "e" if (q.cache_harness and not q.harness.startswith("@wd/")) else "h", defs + fdef)]
     for e in q.env:
         jobs.append((os.path.join(VERIF, "env", e), "e", defs))
     for s in q.srcs:
         extra = [f.replace("@wd", wd) for f in q.src_flags.get(s, [])]
-        jobs.append((os.path.join(repo, s), "r", dflags(q.repo_defs) + defs + extra))
+        jobs.append((os.path.join(repo, s), "r", dflags(q.repo_defs) + defs + extra +
+                     (["-Dfree=verif_free"] if q.instr else [])))
     for s in q.extra_srcs:
-        jobs.append((s.replace("@wd", wd), "h", defs))
+        jobs.append((s.replace("@wd", wd), "h", defs + fdef))
     for src, kind, d in jobs:
         if kind == "h" or q.scaled:
             o = os.path.join(wd, "%s_%s_%s.gb" % (tag, kind, os.path.basename(src)))
